@@ -263,7 +263,7 @@ func (e *Env) Replace(hs []HostSpec) string {
 		}
 	}
 	e.mtable = nil
-	if len(names) > 0 {
+	if len(names) > 0 && e.Pol == "maglev" {
 		e.mtable = maglev.New(names, maglev.SmallM)
 	}
 	hl := "-"
@@ -519,6 +519,49 @@ func randomCase(c *hx.Ctx) {
 	c.Count(fmt.Sprintf("random.n=%d", n))
 }
 
+// wrapCases: the uint32 cursor of the round-robin balancer wraps in the middle of the first pass (the index sequence
+// then jumps when the host count does not divide 2^32, so the first pass can miss hosts and the second pass of issue 1663
+// decides): every n <= 8, every single healthy host, every cursor offset around the wrap.
+func wrapCases(c *hx.Ctx) {
+	for _, pn := range []string{"rr", "random", "wrr", "ewma"} {
+		var p = Policies[0]
+		for _, q := range Policies {
+			if q.Name == pn {
+				p = q
+			}
+		}
+		maxN := 8
+		if pn != "rr" {
+			maxN = 5
+		}
+		for n := 2; n <= maxN; n++ {
+			for healthy := 0; healthy < n; healthy++ {
+				e := GetEnv(p.Name, p.Type, 2, c.Rng)
+				e.Reset()
+				b := &caseBuf{}
+				hs := genHosts(c.Rng, n, 0)
+				for i, h := range hs {
+					if i != healthy {
+						e.SetHealth(h.ID, false, i)
+						b.ops = append(b.ops, fmt.Sprintf("F%d.0", h.ID))
+					}
+				}
+				b.ops = append(b.ops, e.Replace(hs))
+				last := "-"
+				for off := 0; off <= n+1; off++ {
+					v := uint32(0xffffffff) - uint32(off)
+					if cluster.VerifSetRRIndex(e.LB, v) {
+						b.ops = append(b.ops, fmt.Sprintf("X%d", v))
+					}
+					b.choose(c, e, &last)
+				}
+				b.emit(c, e)
+				c.Count("wrap.cases")
+			}
+		}
+	}
+}
+
 func Run(c *hx.Ctx) {
 	// hx.NewRng(seed) yields the same splitmix sequence shifted by the seed; hash the seed so that seeds are unrelated
 	c.Rng = c.Rng.Fork()
@@ -537,7 +580,8 @@ func Run(c *hx.Ctx) {
 			enumerate(c, pi, 8, 2, 4)
 		}
 	}
-	for i := 0; i < c.N(1500, 25000); i++ {
+	wrapCases(c)
+	for i := 0; i < c.N(3000, 40000); i++ {
 		randomCase(c)
 	}
 }
